@@ -45,7 +45,8 @@ pub mod probes {
     pub const PAYALL_ENTER: usize = 32;
     pub const PAYALL_EXIT: usize = 33;
     pub const HELP_REPLACEMENT_LOADED: usize = 34;
-    pub const NAMES: [&str; 35] = [
+    pub const HELP_ADDR_MISMATCH: usize = 35;
+    pub const NAMES: [&str; 36] = [
         "fast_confirmed",
         "fast_changed_returned",
         "fast_changed_paid",
@@ -81,6 +82,7 @@ pub mod probes {
         "payall_enter",
         "payall_exit",
         "help_replacement_loaded",
+        "help_addr_mismatch",
     ];
 }
 
